@@ -752,6 +752,7 @@ func c14(c *ctx) {
 	// (c) the entry points from a UDP socket into a stream (c14entry.go); run first and unconditionally
 	c14readFromEntry(c, r.fork())
 	c14udpEntry(c, r.fork())
+	c14udpReturn(c, r.fork())
 	// (a) pipe scripts
 	nScripts, nOps, nConc := 3000, 40, 60
 	if c.thorough() {
